@@ -18,7 +18,7 @@ import (
 
 func c12Config() world.Config {
 	return world.Config{
-		Accounts: []string{"F", "U1", "U2", "U3"},
+		Accounts: []string{"F", "U1", "U2", "U3", "P"},
 		Balances: map[string]sdk.Coins{"F": sdk.NewCoins(sdk.NewCoin("ujkl", sdk.NewIntWithDecimal(1, 20)), sdk.NewCoin("uatom", sdk.NewIntWithDecimal(1, 20)))},
 		Storage:  func(p *storagetypes.Params) { p.CheckWindow = 2 },
 	}
@@ -202,7 +202,9 @@ func c12ModuleRun(env world.Env, amount int64, denomMode int, D time.Duration, n
 // restart: after the purchases the storage module is restarted from its own exported genesis (export, JSON, validate,
 // empty store, import); every gauge must go on releasing exactly as if nothing had happened.
 // post: the gauges are opened by pay-once file posts (different files of different owners, 30 days) instead of plans.
-func c12AppRun(env world.Env, sameParams bool, buyers int, seq []int, restart bool, post bool) mc.CaseResult {
+// lapse: the first buyer also stores a file whose only prover never proves again, so that a reward block finds stored
+// files but nobody to credit - the gauges stream all the same.
+func c12AppRun(env world.Env, sameParams bool, buyers int, seq []int, restart bool, post bool, lapse ...bool) mc.CaseResult {
 	w := env.W()
 	k := w.App.StorageKeeper
 	cr := mc.CaseResult{Class: "app"}
@@ -265,6 +267,18 @@ func c12AppRun(env world.Env, sameParams bool, buyers int, seq []int, restart bo
 	}
 	if !recorded.IsEqual(deposited) {
 		cr.Viols = append(cr.Viols, viol("released-equals-elapsed-fraction-of-deposit", "gauge-records-do-not-cover-deposits", "deposited %s into gauge accounts, gauge records total %s (%d gauges for %d purchases)", deposited, recorded, len(k.GetAllPaymentGauges(env.Ctx())), buyers))
+	}
+	if len(lapse) > 0 && lapse[0] {
+		setStorageParams(env, func(p *storagetypes.Params) { p.ProofWindow = 2 })
+		u1, pr := w.A("U1").Bech, w.A("P").Bech
+		f := mkFile(seqBytes(12, 99), 1024)
+		h := env.Ctx().BlockHeight()
+		mustOK(env.Deliver(storagetypes.NewMsgInitProvider(pr, "https://p.example.com", 1_000_000, "kb")), "InitProvider")
+		mustOK(env.Deliver(storagetypes.NewMsgPostFile(u1, f.merkle, 12, 0, 0, 1, "{}")), "PostFile")
+		item, hl := f.proofFor(0)
+		if ok, e := postProofOK(w, env.Deliver(storagetypes.NewMsgPostProof(pr, f.merkle, u1, h, item, hl, 0))); !ok {
+			panic("harness: join proof rejected: " + e)
+		}
 	}
 	if restart {
 		if err := restartModule(env, "storage"); err != nil {
@@ -361,6 +375,10 @@ func c12EnumApp(thorough bool) mc.Enum {
 				e.Cases = append(e.Cases, mc.Case{Desc: fmt.Sprintf("app|buyers=%d|sameParams=%v|times=%s|restart", v.buyers, v.same, seqDesc(seq)), Run: func(env world.Env) mc.CaseResult {
 					return c12AppRun(env, v.same, v.buyers, seq, true, false)
 				}})
+				// a stored file whose only prover lapses: reward blocks with files but nobody to credit
+				e.Cases = append(e.Cases, mc.Case{Desc: fmt.Sprintf("app|buyers=%d|sameParams=%v|times=%s|lapsing-prover", v.buyers, v.same, seqDesc(seq)), Run: func(env world.Env) mc.CaseResult {
+					return c12AppRun(env, v.same, v.buyers, seq, false, false, true)
+				}})
 				// the same gauges opened by pay-once file posts in one block
 				e.Cases = append(e.Cases, mc.Case{Desc: fmt.Sprintf("app|pay-once posts=%d|sameParams=%v|times=%s", v.buyers, v.same, seqDesc(seq)), Run: func(env world.Env) mc.CaseResult {
 					return c12AppRun(env, v.same, v.buyers, seq, false, true)
@@ -375,7 +393,7 @@ func init() {
 	CaseReplayers["C12/gauges-module"] = func(r *mc.Run, c string) { r.ReplayCase(c12EnumModule(true), c) }
 	CaseReplayers["C12/gauges-app"] = func(r *mc.Run, c string) { r.ReplayCase(c12EnumApp(true), c) }
 	Props["C12"] = Prop{Level: "exploration", Run: func(r *mc.Run, tier string) {
-		r.Rules = append(r.Rules, "gauge amounts {1,2,3,7,10,999,1000003,1e15} x one/two denominations x durations {1d,30d,365d} x 1 or 3 concurrent gauges (also 2-3 identical ones, and gauges opened later that end together with the first) x every weakly increasing sequence of <=3 (thorough 4) reward-block times from {start,start+1us,D/7,D/3,D/2,D-1us,D,D+1us,2D} through the storage BeginBlocker; plus gauges created by real BuyStorage transactions (one buyer, two buyers, two or three buyers with identical parameters in the same block) and by pay-once file posts (two or three files of different owners in one block, equal or different size) run through the whole application at both seams, with and without a restart of the storage module from its own exported genesis after the purchases. Non-trivial = a reward block released something")
+		r.Rules = append(r.Rules, "gauge amounts {1,2,3,7,10,999,1000003,1e15} x one/two denominations x durations {1d,30d,365d} x 1 or 3 concurrent gauges (also 2-3 identical ones, and gauges opened later that end together with the first) x every weakly increasing sequence of <=3 (thorough 4) reward-block times from {start,start+1us,D/7,D/3,D/2,D-1us,D,D+1us,2D} through the storage BeginBlocker; plus gauges created by real BuyStorage transactions (one buyer, two buyers, two or three buyers with identical parameters in the same block) and by pay-once file posts (two or three files of different owners in one block, equal or different size) run through the whole application at both seams, with and without a restart of the storage module from its own exported genesis after the purchases, and with a stored file whose only prover lapses (reward blocks that find files but nobody to credit). Non-trivial = a reward block released something")
 		r.Assumptions = append(r.Assumptions, "whether the unreleased remainder is paid after the end is unspecified (only 'nothing is released outside the interval' is enforced)", "tolerance one base unit per denomination")
 		r.AddEnum(c12EnumModule(tier == "thorough"), workers(), time.Time{})
 		r.AddEnum(c12EnumApp(tier == "thorough"), workers(), time.Time{})
